@@ -275,10 +275,13 @@ def run_property(pid, tier, seed):
                 runs.append((spec, cfg, sh, nshards))
     results = []
     deadline = t0 + budget
-    with cf.ThreadPoolExecutor(max_workers=NCPU) as ex:
-        futs = [ex.submit(run_one, pid, s, c, sh, n, tier, seed, outdir, None, None, max(30, deadline - time.time())) for (s, c, sh, n) in runs]
-        for fu in futs:
-            results.append(fu.result())
+    # configurations marked "first" (e.g. the reference configuration of a differential check) complete before the others start
+    for stage in (True, False):
+        with cf.ThreadPoolExecutor(max_workers=NCPU) as ex:
+            futs = [ex.submit(run_one, pid, s, c, sh, n, tier, seed, outdir, None, None, max(30, deadline - time.time()))
+                    for (s, c, sh, n) in runs if bool(c.get("first")) == stage]
+            for fu in futs:
+                results.append(fu.result())
     # ---- collect
     violations = []
     inconclusive = []
@@ -460,6 +463,12 @@ def replay(pid, path):
         # the directory name is rapid's sanitised test name; run the tests whose sanitised name matches
         extra = ["-rapid.failfile=" + path]
         spec2["run"] = meta.get("run") or ("^" + meta["test_dir"].split("_")[0])
+    for c0 in (spec.get("configs") or []):
+        if c0.get("first") and c0["name"] != cfg["name"]:
+            with open(os.path.join(WORK, "replay-build.log"), "a") as lg:
+                b0 = build_all([dict(spec, configs=[c0])], lg)
+            if all(ok for ok, _t in b0.values()):
+                run_one(pid, dict(spec), c0, meta["shard"], int(meta["env"].get("VERIF_NSHARDS", "1")), meta["tier"], meta["seed"], outdir, None, None, 3600)
     r = run_one(pid, spec2, cfg, meta["shard"], int(meta["env"].get("VERIF_NSHARDS", "1")), meta["tier"], meta["seed"], outdir, extra, None, 3600)
     sys.stdout.write(tail(r["log"], 60) + "\n")
     if r["rc"] != 0:
